@@ -330,3 +330,9 @@ func VerifTextAtoms(root *html.Node) func(string) (bool, int) {
 	ce := extractor.NewContentExtractor(root, nil, nil)
 	return func(s string) (bool, int) { return stringutil.IsStringAllWhitespace(s), ce.WordCounter.Count(s) }
 }
+
+// VerifStripAttributes runs domutil.StripAttributes on the caller's (private) tree.
+func VerifStripAttributes(n *html.Node) { domutil.StripAttributes(n) }
+
+// VerifFastWordCount is stringutil.FastWordCounter.
+func VerifFastWordCount(s string) int { return stringutil.FastWordCounter{}.Count(s) }
